@@ -238,6 +238,14 @@ fn confirm_replay(path: &str, class: &str) -> bool {
     }
 }
 
+fn record_replay(path: &str, class: &str) -> bool {
+    let exe = std::env::current_exe().expect("exe");
+    match std::process::Command::new(exe).args(["replay", "--file", path, "--quiet", "--record"]).output() {
+        Ok(o) => String::from_utf8_lossy(&o.stdout).lines().any(|l| l.starts_with("REPLAY-RECORDED") && l.contains(&format!("class={class}"))),
+        Err(_) => false,
+    }
+}
+
 pub fn quiet_stderr() {
     if std::env::var_os("VERIF_KEEP_STDERR").is_some() {
         return;
@@ -305,9 +313,12 @@ pub fn check<E: Engine>(e: &E, args: &[String]) -> i32 {
         let canon = run_isolated(e, &prop, &minimised, false);
         let detail2 = canon.violations.iter().find(|v| &v.0 == class).map(|v| v.1.clone()).unwrap_or_else(|| detail.to_string());
         let path = replay_path(&prop, class);
-        let doc = json!({"property": prop, "engine": e.engine_name(), "violation_class": class, "detail": detail2, "digest": canon.digest, "spec": minimised});
+        let doc = json!({"property": prop, "engine": e.engine_name(), "violation_class": class, "detail": detail2, "digest": "", "spec": minimised});
         std::fs::write(&path, serde_json::to_string_pretty(&doc).unwrap()).expect("write replay");
-        if !(confirm_replay(&path, class) && confirm_replay(&path, class)) {
+        // the canonical execution is "fresh process, warm-up, forked child": the digest is
+        // recorded by such a process and then confirmed by two more
+        let recorded = record_replay(&path, class);
+        if !(recorded && confirm_replay(&path, class) && confirm_replay(&path, class)) {
             println!("HARNESS-ERROR violation class {class} did not reproduce from {path} in a fresh process");
             harness_fail = true;
             continue;
@@ -380,6 +391,20 @@ pub fn replay<E: Engine>(e: &E, args: &[String]) -> i32 {
             println!("violation: {c} -- {d}");
         }
     }
+    if args.iter().any(|a| a == "--record") {
+        if r.has(&class) {
+            let mut doc = v.clone();
+            doc["digest"] = Value::from(r.digest.clone());
+            if let Some(d) = r.violations.iter().find(|x| x.0 == class) {
+                doc["detail"] = Value::from(d.1.clone());
+            }
+            std::fs::write(&file, serde_json::to_string_pretty(&doc).unwrap()).expect("write replay");
+            println!("REPLAY-RECORDED class={class} digest={}", r.digest);
+            return 1;
+        }
+        println!("REPLAY-CLEAN recorded class {class} not reproduced");
+        return 0;
+    }
     if r.has(&class) && r.digest == want {
         println!("REPLAY-OK class={class} digest={}", r.digest);
         println!("VIOLATION property={prop} replay={file}");
@@ -438,6 +463,7 @@ pub fn digests<E: Engine>(e: &E, args: &[String]) -> i32 {
 }
 
 pub fn main_dispatch<E: Engine>(e: &E) -> i32 {
+    crate::ensure_no_aslr();
     let args: Vec<String> = std::env::args().skip(1).collect();
     if args.is_empty() {
         eprintln!("usage: check|replay|one|digests ...");
